@@ -61,7 +61,30 @@ type JNetEvent struct {
 	Type       int    `json:"type"`
 }
 
+// JNetEv / JNetOp: the run as ONE totally ordered list of operations with virtual times, detailed enough to replay it
+// on the network model (lean/AutoVerif/Model/Net.lean) step by step: rounds, every ShouldAccept / ShouldTransmit call
+// with its answer, every answer of a member's transmit event provider (one coordinator poll), every restart.
+type JNetEv struct {
+	W    string `json:"w"`
+	Tx   string `json:"tx"`
+	Ty   int    `json:"ty"`
+	Tb   uint64 `json:"tb"`
+	Cb   uint64 `json:"cb"`
+	Conf int64  `json:"conf"`
+}
+
+type JNetOp struct {
+	At     int64    `json:"at"`     // virtual nanoseconds since the run started
+	Kind   string   `json:"k"`      // round | accept | transmit | poll | restart
+	Node   int      `json:"node"`   // member (unused for round)
+	Report int      `json:"report"` // accept / transmit: report id; round: index into Rounds
+	Ans    bool     `json:"ans"`    // accept / transmit: the answer; round: Reports returned without error
+	Evs    []JNetEv `json:"evs,omitempty"`
+}
+
 type netWorld struct {
+	start    time.Time
+	ops      []JNetOp
 	fake     []netFakeEvent
 	seenEv   map[string]bool
 	evLog    []JNetEvent
@@ -73,6 +96,13 @@ type netWorld struct {
 	upkeeps   []*netUpkeep
 	transmits []netTransmit
 	performed map[string]uint64 // work id -> transmit block
+}
+
+// op records one operation of the main goroutine (the providers record their polls themselves, under the same lock)
+func (w *netWorld) op(kind string, node, report int, ans bool) {
+	w.mu.Lock()
+	w.ops = append(w.ops, JNetOp{At: int64(time.Since(w.start)), Kind: kind, Node: node, Report: report, Ans: ans})
+	w.mu.Unlock()
 }
 
 func (w *netWorld) hash(h uint64) [32]byte {
@@ -186,6 +216,11 @@ func (e *netEvents) GetLatestEvents(context.Context) ([]ocr2keepers.TransmitEven
 			}
 		}
 	}
+	po := JNetOp{At: int64(time.Since(e.w.start)), Kind: "poll", Node: e.m.id}
+	for _, ev := range out {
+		po.Evs = append(po.Evs, JNetEv{W: ev.WorkID, Tx: hx(ev.TransactionHash[:]), Ty: int(ev.Type), Tb: uint64(ev.TransmitBlock), Cb: uint64(ev.CheckBlock), Conf: ev.Confirmations})
+	}
+	e.w.ops = append(e.w.ops, po)
 	return out, nil
 }
 
@@ -234,6 +269,11 @@ type JNetTrace struct {
 	Reports  []JNetReport       `json:"reports"`
 	Queries  []JNetQuery        `json:"queries"`
 	Events   []JNetEvent        `json:"events"` // when each member's event provider first returned each transmit event
+	// replay information (absent in traces recorded before the network model existed)
+	Ops      []JNetOp `json:"ops,omitempty"`
+	WindowNs int64    `json:"windowNs,omitempty"` // PerformLockoutWindow of the members, ns
+	MinConf  int      `json:"minConf,omitempty"`
+	Batch    int      `json:"batch,omitempty"` // MaxUpkeepBatchSize
 }
 
 type JNetImpl struct {
@@ -262,7 +302,7 @@ func runNetwork(t *testing.T, r *Rng, em *Emitter, roundEm func(JRound, JRoundIm
 	opts := netOpts{rounds: r.Range(12, 28), conds: r.Range(0, 6), logs: r.Range(0, 5), byz: byz, crashes: faulty - byz, lateAccept: r.Chance(60)}
 	em.Hit(fmt.Sprintf("n=%d,f=%d,byz=%d,crash=%d", n, f, opts.byz, opts.crashes))
 
-	w := &netWorld{seenEv: map[string]bool{}, r: r.Fork(), height: uint64(r.Range(100, 100000)), hashes: map[uint64][32]byte{}, performed: map[string]uint64{}}
+	w := &netWorld{start: time.Now(), seenEv: map[string]bool{}, r: r.Fork(), height: uint64(r.Range(100, 100000)), hashes: map[uint64][32]byte{}, performed: map[string]uint64{}}
 	if r.Chance(20) {
 		w.height = uint64(r.Range(95, 99)) // crosses 100 during the run
 	}
@@ -273,7 +313,7 @@ func runNetwork(t *testing.T, r *Rng, em *Emitter, roundEm func(JRound, JRoundIm
 		w.upkeeps = append(w.upkeeps, &netUpkeep{id: genUpkeepID(r, true), log: true, bigGas: r.Chance(15)})
 	}
 	digest := genHash(r)
-	trace := JNetTrace{N: n, F: f, Restarts: map[string][]int{}}
+	trace := JNetTrace{N: n, F: f, Restarts: map[string][]int{}, WindowNs: int64(100000 * time.Millisecond), MinConf: 1, Batch: 3}
 	impl := JNetImpl{FirstReport: map[string]int{}, Eligible: map[string]int{}}
 	var pipeMu sync.Mutex
 
@@ -407,11 +447,13 @@ func runNetwork(t *testing.T, r *Rng, em *Emitter, roundEm func(JRound, JRoundIm
 			if r.Chance(15) {
 				m := members[id]
 				m.node.Close()
+				w.op("restart", id, 0, false)
 				startMember(m)
 				m.restarts++
 				trace.Restarts[fmt.Sprint(id)] = append(trace.Restarts[fmt.Sprint(id)], round)
 				em.Hit("restart")
 				time.Sleep(1300 * time.Millisecond)
+				synctest.Wait() // polls due at this instant complete before the next call (total order of the recorded operations)
 			}
 		}
 
@@ -424,6 +466,7 @@ func runNetwork(t *testing.T, r *Rng, em *Emitter, roundEm func(JRound, JRoundIm
 				m.accepted[p.report] = true
 				m.everAcc[p.report] = true
 				trace.Queries = append(trace.Queries, JNetQuery{Round: round, Node: p.node, Report: p.report, IsAccept: true, Accept: ok})
+				w.op("accept", p.node, p.report, ok)
 				em.Hit("late-accept")
 			} else {
 				rest = append(rest, p)
@@ -443,6 +486,7 @@ func runNetwork(t *testing.T, r *Rng, em *Emitter, roundEm func(JRound, JRoundIm
 			for _, id := range ids {
 				ok, _ := m.node.Plugin.ShouldTransmitAcceptedReport(context.Background(), seq, ocr3types.ReportWithInfo[pluginInfo]{Report: reportBytes[id]})
 				trace.Queries = append(trace.Queries, JNetQuery{Round: round, Node: m.id, Report: id, Transmit: ok, Pre: true})
+				w.op("transmit", m.id, id, ok)
 			}
 		}
 		var aos []ocr2plustypes.AttributedObservation
@@ -605,6 +649,7 @@ func runNetwork(t *testing.T, r *Rng, em *Emitter, roundEm func(JRound, JRoundIm
 		// --- reports
 		reps, err := up[0].node.Plugin.Reports(context.Background(), seq, outBytes)
 		calls := up[0].node.Enc.Take()
+		w.op("round", 0, round, err == nil)
 		if roundEm != nil {
 			var prevO *ocr2keepersv3.AutomationOutcome
 			if prevBytes != nil {
@@ -665,6 +710,7 @@ func runNetwork(t *testing.T, r *Rng, em *Emitter, roundEm func(JRound, JRoundIm
 					m.accepted[id] = true
 					m.everAcc[id] = true
 					trace.Queries = append(trace.Queries, JNetQuery{Round: round, Node: m.id, Report: id, IsAccept: true, Accept: ok})
+					w.op("accept", m.id, id, ok)
 				}
 			}
 		}
@@ -681,6 +727,7 @@ func runNetwork(t *testing.T, r *Rng, em *Emitter, roundEm func(JRound, JRoundIm
 			for _, id := range ids {
 				ok, _ := m.node.Plugin.ShouldTransmitAcceptedReport(context.Background(), seq, ocr3types.ReportWithInfo[pluginInfo]{Report: reportBytes[id]})
 				trace.Queries = append(trace.Queries, JNetQuery{Round: round, Node: m.id, Report: id, Transmit: ok})
+				w.op("transmit", m.id, id, ok)
 				if ok && !transmitted[id] && r.Chance(70) {
 					transmitted[id] = true
 					w.mu.Lock()
@@ -713,6 +760,7 @@ func runNetwork(t *testing.T, r *Rng, em *Emitter, roundEm func(JRound, JRoundIm
 	synctest.Wait()
 	w.mu.Lock()
 	trace.Events = append(trace.Events, w.evLog...)
+	trace.Ops = append(trace.Ops, w.ops...)
 	w.mu.Unlock()
 	return trace, impl
 }
@@ -728,7 +776,13 @@ func runScript(t *testing.T, r *Rng, variant int) (JNetTrace, JNetImpl) {
 		return res
 	}
 	lo, hi := mk(90), mk(100)
-	trace := JNetTrace{N: n, F: f, Honest: []int{0, 1, 2, 3}, Correct: []int{0, 1, 2}, Restarts: map[string][]int{"3": {2}}}
+	// defaults of the off-chain configuration: lockout window 20 min, no confirmations required, one upkeep per report
+	trace := JNetTrace{N: n, F: f, Honest: []int{0, 1, 2, 3}, Correct: []int{0, 1, 2}, Restarts: map[string][]int{"3": {2}},
+		WindowNs: int64(20 * time.Minute), MinConf: 0, Batch: 1}
+	start := time.Now()
+	op := func(kind string, report int, ans bool) {
+		trace.Ops = append(trace.Ops, JNetOp{At: int64(time.Since(start)), Kind: kind, Node: 3, Report: report, Ans: ans})
+	}
 	for _, res := range []ocr2keepers.CheckResult{lo, hi} {
 		trace.Pipeline = append(trace.Pipeline, netPipelineEntry{Node: 0, Res: toJCR(res)})
 	}
@@ -746,6 +800,8 @@ func runScript(t *testing.T, r *Rng, variant int) (JNetTrace, JNetImpl) {
 		{Seq: 3, OutcomeOK: false}, {Seq: 4, OutcomeOK: false},
 	}
 	trace.Reports = []JNetReport{{ID: 0, Round: 0, Upkeeps: []JCR{toJCR(lo)}}, {ID: 1, Round: 1, Upkeeps: []JCR{toJCR(hi)}}}
+	op("round", 0, true)
+	op("round", 1, true)
 	node := NewNode(t, NodeOpts{N: n, F: f, Digest: digest, OracleID: 3})
 	time.Sleep(1500 * time.Millisecond)
 	rep := func(id int) ocr3types.ReportWithInfo[pluginInfo] {
@@ -760,13 +816,16 @@ func runScript(t *testing.T, r *Rng, variant int) (JNetTrace, JNetImpl) {
 	accept := func(round, id int) {
 		ok, _ := node.Plugin.ShouldAcceptAttestedReport(context.Background(), 1, rep(id))
 		trace.Queries = append(trace.Queries, JNetQuery{Round: round, Node: 3, Report: id, IsAccept: true, Accept: ok})
+		op("accept", id, ok)
 	}
 	ask := func(round, id int, pre bool) {
 		ok, _ := node.Plugin.ShouldTransmitAcceptedReport(context.Background(), 1, rep(id))
 		trace.Queries = append(trace.Queries, JNetQuery{Round: round, Node: 3, Report: id, Transmit: ok, Pre: pre})
+		op("transmit", id, ok)
 	}
 	restart := func() {
 		node.Close()
+		op("restart", 0, false)
 		time.Sleep(11 * time.Second)
 		node = NewNode(t, NodeOpts{N: n, F: f, Digest: digest, OracleID: 3})
 		time.Sleep(1500 * time.Millisecond)
